@@ -144,19 +144,22 @@ func (ck *Checker) contractOf(f *ssa.Function) *FuncContract {
 
 func (ck *Checker) findExtern(names []string) *FuncContract {
 	// exact matches win over wildcard matches; later files override earlier ones
-	var wild *FuncContract
-	for i := len(ck.externs) - 1; i >= 0; i-- {
-		e := ck.externs[i]
-		for _, n := range names {
-			if e.Name == n {
-				return e
+	// names are ordered from the most specific (the static callee / receiver interface) to the most general
+	// (the interface that declares the method): the most specific name that has an extern decides
+	for _, n := range names {
+		for i := len(ck.externs) - 1; i >= 0; i-- {
+			if ck.externs[i].Name == n {
+				return ck.externs[i]
 			}
 		}
-		if wild == nil && strings.HasSuffix(e.Name, "*") && patMatch(e.Name, names) {
-			wild = e
+	}
+	for i := len(ck.externs) - 1; i >= 0; i-- {
+		e := ck.externs[i]
+		if strings.HasSuffix(e.Name, "*") && patMatch(e.Name, names) {
+			return e
 		}
 	}
-	return wild
+	return nil
 }
 
 func (ck *Checker) noteHavocCall(fn, callee string) {
